@@ -16,7 +16,7 @@ for pid, files in FILES.items():
         if not p.exists():
             continue
         mods.append(f"HG.Props.{f}")
-        src = p.read_text()
+        src = re.sub(r'/-.*?-/', lambda m: '\n' * m.group(0).count('\n'), p.read_text(), flags=re.S)
         ns = []
         for line in src.splitlines():
             m = re.match(r"^namespace\s+(\S+)", line)
